@@ -245,7 +245,8 @@ def f2(tier, rnd) -> List[Desc]:
           M.packet('OneSst', [M.array('x', type_id='Sst', count=1)]),
           M.packet('StaticPad', [M.scalar('a', 8), M.array('x', width=16, count=2), M.padding(6), M.scalar('b', 8)]),
           M.packet('StaticPadEq', [M.array('x', width=16, count=2), M.padding(4), M.scalar('b', 8)]),
-          M.packet('PayloadThenPad', [M.scalar('tag', 8), M.payload(), M.array('trailer', width=16, count=2), M.padding(6)])]
+          M.packet('PayloadThenPad', [M.scalar('tag', 8), M.payload(), M.array('trailer', width=16, count=2), M.padding(6)]),
+          M.packet('CountPad', [M.count('x', 8), M.array('x', width=16), M.padding(4)])]
     out.extend(both(Desc('f2_static_special', _le([ed['En16'], ed['Sst']] + pk), 'F2', core=True)))
     # arrays of derived structs (static total size through inheritance)
     Base = M.struct('Base', [M.scalar('tag', 8), M.payload()])
